@@ -1,3 +1,5 @@
+// STATUS: FIXED in /repo by commit "fix: range queries on a fast bool field failed with InvalidArgument" (as_bool decoder arm + ColumnType::Bool in the
+// white list of FastFieldRangeWeight::scorer's numeric branch); on the repaired tree all 4 tests pass (run by main).  The text below describes the tree BEFORE the fix.
 // Candidate finding (C03 "range queries on fast fields for every column type"; unit fast_field_range_scorer) + two native controls.
 //
 // (A) FINDING: a RangeQuery on a BOOL field that is `INDEXED | FAST` always fails.  RangeQuery::weight picks FastFieldRangeWeight because
